@@ -7,14 +7,17 @@ from harness.props import c05, c07
 
 ID = 'C12'
 MODULE = 'Gpv.Props.C12'
-THEOREMS = core.theorems('C12')
+MODULES = ['Gpv.Props.C12', 'Gpv.Props.C12P2']
+THEOREMS = core.theorems('C12', 'C12P2')
 RULE = ('accumulator kind (Minimum, Maximum, Mean, Variance, RunningMean, RunningVariance, Covariance, CDF/Quantile estimators) x shape '
         '(0-d to 3-d) x sequence; after EVERY observation (and after merges) each component of the array accumulator is compared with a '
         'separate scalar accumulator of the real code fed that component only (oracle, rtol 1e-12; exact for ranks, min, max), and the '
         'array accumulator is compared with the Lean array model (Val with numpy broadcasting) in exact rationals; P² components use '
         'different sequence families so that they take different branches in the same step. non-trivial: >= 2 components with '
         'different data and >= 3 observations; distinct by (kind, shape, data).')
-PARTIAL = ['"to the last few bits": the theorems are exact (any operations, even Float: the projection lemmas use no field axiom); '
+PARTIAL = ['the np.where (vectorised) P2 update IS modelled (Gpv.Model.P2Vec) and proved equal, per component, to the scalar update '
+           '(C12P2.run_col); the model of the array estimator is compared bit-for-bit in lock-step with the implementation',
+           '"to the last few bits": the theorems are exact (any operations, even Float: the projection lemmas use no field axiom); '
            'the implementation comparison uses rtol 1e-12']
 ASSUMPTIONS = ['numpy ufuncs and np.where act element-wise']
 
